@@ -1176,7 +1176,7 @@ def _exit_guards(f):
                     act = 'raise ' + (ast.unparse(last.exc.func if isinstance(last.exc, ast.Call) else last.exc) if last.exc is not None else '')
                 else:
                     act = 'return ' + (ast.unparse(last.value) if getattr(last, 'value', None) is not None else 'None')
-                t = _re.sub(r'\((\w+) := [^()]*(\([^()]*\))?[^()]*\)', r'\1', ast.unparse(test))
+                t = _re.sub(r'\((\w+) := [^()]*(\([^()]*\))?[^()]*\)', r'\1', G.canon_text(test))
                 out.add((t, act))
     return out
 
